@@ -1331,8 +1331,10 @@ class Interp:
             if self.models.heap_is_obj(self, v):
                 return v != self.models.heap_none(self)
             raise Unsupported("truth value of term of sort %s" % v.sort())
-        if isinstance(v, (str, tuple)):
+        if isinstance(v, (str, tuple, bytes)):
             return len(v) > 0
+        if type(v).__name__ == "PickleBlob":
+            return True  # pickle.dumps never returns an empty byte string
         if isinstance(v, frozenset):
             return len(v) > 0
         if isinstance(v, (FrozenList, FrozenDict)):
